@@ -17,6 +17,9 @@
 //	idx k q => [ids]                           the stream FindFeatures builds for the index of file k (hook)
 //	find id => merged ## union                 (union answer `-` when the case has duplicated ids)
 //	has id / hasid id / loc id / prefs id / pts id / each / search q    likewise
+//	rels id / refs id / areas id / trav id     reference queries, sorted (no model answer: merged vs union)
+//	chain [k..] [k..]; cfind id; cloc id       the first files as NewWorldWithBase of the others
+//	src k t ns refs=[ns..] pts=[ns..]; build => builder-crash   a case the builder died on
 //
 // The Lean driver recomputes every merged answer from the per-file facts with B6.Model.Merged and
 // evaluates the property on the implementation's answer (merged = single world of the union).
@@ -153,10 +156,10 @@ func generate(r *hx.Rand, big bool) *gcase {
 			for {
 				v := uint64(1 + r.Intn(14))
 				if r.Chance(1, 12) {
-					// below 2^56: with path values near 2^63 the builder dies in combinePoints
-					// (References.Marshal writes a longer zigzag delta than the scratch pass reserved:
-					// "index out of range [9] with length 9") - the record codecs are C01/C11's
-					v = r.Uint64Edge() >> 8
+					v = r.Uint64Edge()
+					if r.Bool() { // 32..63, 4096..8191, ..: value<<2 needs a byte more than value<<1 (combinePoints, fixed)
+						v = uint64(1)<<uint(5+7*r.Intn(8)) + uint64(r.Intn(16))
+					}
 				}
 				id := b6.FeatureID{Type: t, Namespace: nss[r.Intn(len(nss))], Value: v}
 				if !used[id] {
@@ -392,7 +395,7 @@ func pth(ns b6.Namespace, v uint64, refs []b6.FeatureID, tags ...b6.Tag) gfeat {
 	return gfeat{id: b6.FeatureID{Type: b6.FeatureTypePath, Namespace: ns, Value: v}, refs: refs, tags: tags}
 }
 
-const nCorpus = 5
+const nCorpus = 7
 
 func corpus(k int) *gcase {
 	n := b6.NamespaceOSMNode
@@ -418,8 +421,61 @@ func corpus(k int) *gcase {
 		q := pt(n, 7, 51.504, -0.12)
 		return &gcase{files: []gfile{{feats: []gfeat{p1, p2}}, {feats: []gfeat{p3, p4}},
 			{overlay: true, feats: []gfeat{q, pth(w, 12, []b6.FeatureID{p1.id, q.id, p4.id}, st("#highway", "path"))}}}, order: []int{0, 2, 1}}
+	case 5: // a relation in one file over a path and a point of another: the members do not know (finding cross-file-referrer)
+		rel := gfeat{id: b6.FeatureID{Type: b6.FeatureTypeRelation, Namespace: b6.NamespaceOSMRelation, Value: 50},
+			members: []b6.RelationMember{{ID: b6.FeatureID{Type: b6.FeatureTypePath, Namespace: w, Value: 10}, Role: "forward"}, {ID: p1.id}, {ID: p3.id}}, tags: []b6.Tag{st("#route", "bus")}}
+		return &gcase{files: []gfile{{feats: []gfeat{p1, p2, pth(w, 10, []b6.FeatureID{p1.id, p2.id}, st("#highway", "path"))}},
+			{feats: []gfeat{p3, p4, rel}}}, order: []int{0, 1}}
+	case 6: // an overlay whose only entry for a base point records way 40: value<<2 is a byte longer than value<<1 (combinePoints overflowed)
+		return &gcase{files: []gfile{{feats: []gfeat{p1, p2, p3}},
+			{overlay: true, feats: []gfeat{pth(w, 40, []b6.FeatureID{p1.id, p3.id}, st("#highway", "path"))}}}, order: []int{0, 1}}
 	}
 	return nil
+}
+
+// crashWitness is generated case 0 of every run: a relation whose point member is in a namespace of which its
+// file has neither points nor path points. compact.Build dies on it (finding C01 point-member-without-block), which
+// exercises the one builder crash the driver accepts.
+func crashWitness() *gcase {
+	n := b6.NamespaceOSMNode
+	p1, p2 := pt(n, 1, 51.5, -0.12), pt(n, 2, 51.501, -0.12)
+	rel := gfeat{id: b6.FeatureID{Type: b6.FeatureTypeRelation, Namespace: b6.NamespaceOSMRelation, Value: 50},
+		members: []b6.RelationMember{{ID: b6.FeatureID{Type: b6.FeatureTypePoint, Namespace: "zz.test/pt", Value: 1}}}}
+	return &gcase{files: []gfile{{feats: []gfeat{p1, p2}}, {feats: []gfeat{pt(n, 3, 51.502, -0.12), rel}}}, order: []int{0, 1}, shape: []string{"builder-crash-witness"}}
+}
+
+// caseFor is the case a run generates for number `no`.
+func caseFor(seed uint64, thorough bool, no int) *gcase {
+	if no == 0 {
+		return crashWitness()
+	}
+	r := CaseRand(seed, no)
+	return generate(r, thorough && r.Chance(1, 8))
+}
+
+// srcLines describes the source of a case the builder died on, for the driver's class predicates: per feature
+// its file, type, namespace, the namespaces of its path points and of its point members.
+func srcLines(c *gcase) []string {
+	var out []string
+	nsList := func(ids []b6.FeatureID) string {
+		xs := make([]string, len(ids))
+		for i, id := range ids {
+			xs[i] = word(string(id.Namespace))
+		}
+		return hx.List(xs)
+	}
+	for k, f := range c.files {
+		for _, g := range f.feats {
+			var pts []b6.FeatureID
+			for _, m := range g.members {
+				if m.ID.Type == b6.FeatureTypePoint {
+					pts = append(pts, m.ID)
+				}
+			}
+			out = append(out, fmt.Sprintf("src %d %d %s refs=%s pts=%s", k, int(g.id.Type), word(string(g.id.Namespace)), nsList(g.refs), nsList(pts)))
+		}
+	}
+	return out
 }
 
 // ---- rendering ------------------------------------------------------------------------------------
@@ -856,6 +912,39 @@ func runCase(t *Transcript, c *gcase, phase func(string)) {
 			}
 			return rk.list(ids)
 		})
+		srt := func(ids []b6.FeatureID) string {
+			sort.Slice(ids, func(i, j int) bool { return ids[i].Less(ids[j]) })
+			return rk.list(ids)
+		}
+		both("rels "+s, func(w b6.World) string {
+			rs := w.FindRelationsByFeature(id)
+			var out []b6.FeatureID
+			for rs.Next() {
+				out = append(out, rs.FeatureID())
+			}
+			return srt(out)
+		})
+		both("refs "+s, func(w b6.World) string { return srt(featIDs(w.FindReferences(id))) })
+		if id.Type == b6.FeatureTypePoint {
+			both("areas "+s, func(w b6.World) string {
+				as := w.FindAreasByPoint(id)
+				var out []b6.FeatureID
+				for as.Next() {
+					out = append(out, as.FeatureID())
+				}
+				return srt(out)
+			})
+			both("trav "+s, func(w b6.World) string {
+				ss := b6.AllSegments(w.Traverse(id))
+				xs := make([]string, len(ss))
+				for i, sg := range ss {
+					k := sg.ToKey()
+					xs[i] = fmt.Sprintf("%s:%d>%d", rk.id(k.ID), k.First, k.Last)
+				}
+				sort.Strings(xs)
+				return hx.List(xs)
+			})
+		}
 		if id.Type == b6.FeatureTypePath {
 			both("pts "+s, func(w b6.World) string {
 				p, ok := w.FindFeatureByID(id).(b6.PhysicalFeature)
@@ -868,6 +957,36 @@ func runCase(t *Transcript, c *gcase, phase func(string)) {
 				}
 				return hx.List(xs)
 			})
+		}
+	}
+	// a chain: the later files in a world of their own whose base is the world of the earlier ones
+	if j := len(c.order) / 2; j >= 1 {
+		base := compact.NewWorld()
+		top := compact.NewWorldWithBase(base)
+		var tops, bases []string
+		okc := true
+		for i, k := range c.order {
+			if i < j {
+				okc = okc && base.Merge(datas[k]) == nil
+				bases = append(bases, strconv.Itoa(k))
+			} else {
+				okc = okc && top.Merge(datas[k]) == nil
+				tops = append(tops, strconv.Itoa(k))
+			}
+		}
+		t.Op("chain "+hx.List(tops)+" "+hx.List(bases), map[bool]string{true: "ok", false: "err"}[okc])
+		if okc {
+			for _, id := range ids {
+				s := rk.id(id)
+				t.Op("cfind "+s, guard(func() string { return rk.content(top.FindFeatureByID(id)) }))
+				t.Op("cloc "+s, guard(func() string {
+					ll, err := top.FindLocationByID(id)
+					if err != nil {
+						return "err"
+					}
+					return e7(ll)
+				}))
+			}
 		}
 	}
 	for _, nq := range qs {
@@ -936,8 +1055,7 @@ func caseChild(arg string) string {
 				t.Op("reset", "-")
 			}
 		} else {
-			r := CaseRand(seed, no)
-			runCase(&t, generate(r, thorough && r.Chance(1, 8)), phase)
+			runCase(&t, caseFor(seed, thorough, no), phase)
 		}
 		// printed as soon as the case is done: see blocks.go
 		fmt.Printf("CASE\t%d\n%sEND\t%d\n", no, t.String(), no)
@@ -977,6 +1095,11 @@ func main() {
 		}
 		res := blocks.Get(c.Seed, c.Tier, c.CaseNo)
 		if res == "crash" || res == "hang" || res == "builder-crash" {
+			if res == "builder-crash" && c.CaseNo < 1000000 { // what the builder was given, for the driver's class predicates
+				for _, l := range srcLines(caseFor(c.Seed, c.Thorough(), c.CaseNo)) {
+					c.Op(l, "-")
+				}
+			}
 			c.Op("build", res)
 			c.Note("child:" + res)
 			return
